@@ -111,11 +111,12 @@ impl super::MainState {
                         if can_send {
                             use PrivMsgTargetType::*;
                             if !(target_type & ChannelAllSpecial).is_empty() {
-                                // send to special users
+                                // send to special users (only once to every user)
+                                let mut sent = HashSet::<&String>::new();
                                 if !(target_type & ChannelFounder).is_empty() {
                                     if let Some(ref founders) = chanobj.modes.founders {
                                         founders.iter().try_for_each(|u| {
-                                            if u != user_nick {
+                                            if u != user_nick && sent.insert(u) {
                                                 state.users.get(u).unwrap().send_msg_display(
                                                     &conn_state.user_state.source,
                                                     &msg_str,
@@ -129,7 +130,7 @@ impl super::MainState {
                                 if !(target_type & ChannelProtected).is_empty() {
                                     if let Some(ref protecteds) = chanobj.modes.protecteds {
                                         protecteds.iter().try_for_each(|u| {
-                                            if u != user_nick {
+                                            if u != user_nick && sent.insert(u) {
                                                 state.users.get(u).unwrap().send_msg_display(
                                                     &conn_state.user_state.source,
                                                     &msg_str,
@@ -143,7 +144,7 @@ impl super::MainState {
                                 if !(target_type & ChannelOper).is_empty() {
                                     if let Some(ref operators) = chanobj.modes.operators {
                                         operators.iter().try_for_each(|u| {
-                                            if u != user_nick {
+                                            if u != user_nick && sent.insert(u) {
                                                 state.users.get(u).unwrap().send_msg_display(
                                                     &conn_state.user_state.source,
                                                     &msg_str,
@@ -157,7 +158,7 @@ impl super::MainState {
                                 if !(target_type & ChannelHalfOper).is_empty() {
                                     if let Some(ref half_ops) = chanobj.modes.half_operators {
                                         half_ops.iter().try_for_each(|u| {
-                                            if u != user_nick {
+                                            if u != user_nick && sent.insert(u) {
                                                 state.users.get(u).unwrap().send_msg_display(
                                                     &conn_state.user_state.source,
                                                     &msg_str,
@@ -171,7 +172,7 @@ impl super::MainState {
                                 if !(target_type & ChannelVoice).is_empty() {
                                     if let Some(ref voices) = chanobj.modes.voices {
                                         voices.iter().try_for_each(|u| {
-                                            if u != user_nick {
+                                            if u != user_nick && sent.insert(u) {
                                                 state.users.get(u).unwrap().send_msg_display(
                                                     &conn_state.user_state.source,
                                                     &msg_str,
